@@ -190,3 +190,32 @@ def run_C06(ctx):
 
 
 RUNNERS["C06"] = run_C06
+
+
+# ------------------------------------------------------------------ C14 (ArrayBuilder)
+BUILDER_ALPHABET = '''{[c |-> "null"], [c |-> "int", x |-> 1], [c |-> "int", x |-> 2], [c |-> "real", n |-> 5, d |-> 2], [c |-> "bool", x |-> 1],
+ [c |-> "str", b |-> <<97>>], [c |-> "beginlist"], [c |-> "endlist"], [c |-> "beginrecord", name |-> ""], [c |-> "beginrecord", name |-> "P"],
+ [c |-> "field", key |-> "x"], [c |-> "field", key |-> "y"], [c |-> "endrecord"], [c |-> "begintuple", n |-> 2], [c |-> "index", i |-> 0],
+ [c |-> "index", i |-> 1], [c |-> "index", i |-> 2], [c |-> "endtuple"], [c |-> "clear"]}'''
+
+
+def run_C14(ctx):
+    ctx.build("opt")
+    n = 5 if ctx.quick() else 6
+    ctx.tlc_phase("builder-exhaustive", "Builder", dict(Alphabet=BUILDER_ALPHABET, MaxCmds=str(n), EmitOn="TRUE"),
+                  invariants=["SnapshotLength", "UnifyKeepsValues"], properties=["ErrorsLeaveState"],
+                  init="BInit", next_="BNext", view="BView", action_constraints=["BEmit"],
+                  translate=("replay", "steps_builder"), judge_fn=("replay", "judge_builder"))
+    # deeper behaviours, sampled uniformly at random from the same machine
+    ctx.tlc_phase("builder-simulate", "Builder", dict(Alphabet=BUILDER_ALPHABET, MaxCmds="12", EmitOn="TRUE"),
+                  invariants=["SnapshotLength", "UnifyKeepsValues"],
+                  init="BInit", next_="BNext", view=None, action_constraints=["BEmit"],
+                  simulate="num=%d" % (20000 if ctx.quick() else 300000), depth=13,
+                  translate=("replay", "steps_builder"), judge_fn=("replay", "judge_builder"))
+    return ctx.finish(rule="one case = one maximal command sequence (all sequences up to the bound; sampled beyond it); the "
+                           "expected snapshot after EVERY command is compared, and all snapshots are re-read at the end",
+                      assumptions=["the builder's state after an error and clear() with open containers are unspecified",
+                                   "datetime/complex/bytestring/append/extend commands are not in the alphabet yet"])
+
+
+RUNNERS["C14"] = run_C14
